@@ -24,7 +24,10 @@ NOTE = ["the two regular expressions enter the model as predicates: re.fullmatch
 
 DEP_RES = [None, r"#dep.*", r"nomatch", r".*", r"#dep1_0|#dep2_0"]
 CONFUSABLE = [["#app_bin", "#app.bin"], ["#aab", "#a+b"], ["#fw7", "#fw\\d"], ["#ab", "#a?b", "#a*b"], ["#x", "#x|#y", "#y"],
-              ["file:///C:\\images\\update.bin", "#other"], ["#x[1", "#x1"], ["#(", "#)"], ["#a**", "#a"], ["#p$", "#p"], ["#^q", "#q"]]
+              ["file:///C:\\images\\update.bin", "#other"], ["#x[1", "#x1"], ["#(", "#)"], ["#a**", "#a"], ["#p$", "#p"], ["#^q", "#q"],
+              # for the patterns ALTERNATION below: names that merely begin or end with one alternative
+              ["#app0", "#app0_recovery", "boot#file1", "#file1"]]
+ALTERNATION = r"#app0|#file1"
 OMIT_RES = [None, r"zzz", r".*", r"#file.*", r"(#app|p)\d", r"http://.*", r"#dep.*", r".*dep1.*|#app.*"]
 
 
@@ -129,8 +132,10 @@ def work(args):
     out = {"hash": hashlib.sha1(b).hexdigest(), "problems": [], "mismatches": [], "modes": []}
     with tempfile.TemporaryDirectory(prefix="verif_c11_") as d:
         # --- cache from envelope
-        for _ in range(3):
+        for it in range(3):
             dep_re, omit_re, eb = rng.choice(DEP_RES), rng.choice(OMIT_RES), rng.choice([1, 4, 8, 16, 64])
+            if special and special[0] == "#app0" and it == 0:
+                omit_re = ALTERNATION           # a pattern with a top-level alternation matches whole names only
             impl = impl_cache(b, eb, omit_re, dep_re, d)
             req = {"op": "extract.cache", "eb": eb, "envelope": b.hex()}
             if dep_re is not None:
@@ -138,7 +143,7 @@ def work(args):
             if omit_re is not None:
                 req["omit"] = [n for n in names if re.fullmatch(omit_re, n)]
             model = drv.call(req)
-            mode = f"cache:dep={DEP_RES.index(dep_re)}:omit={OMIT_RES.index(omit_re)}:" + ("ok" if "ok" in impl else impl["err"])
+            mode = f"cache:dep={DEP_RES.index(dep_re)}:omit={OMIT_RES.index(omit_re) if omit_re in OMIT_RES else 'alternation'}:" + ("ok" if "ok" in impl else impl["err"])
             out["modes"].append(mode)
             ci = {k: v for k, v in impl.items() if k != "wrote"}
             if ci != model:
